@@ -415,8 +415,11 @@ pub fn replay(case: &Value) -> String {
     log
 }
 
-pub fn report(ctx: &Ctx, vs: Vec<(String, String)>, lg_k: u8, start: &[u32], ops: &[u32]) {
+pub fn report(ctx: &Ctx, vs: Vec<(String, String)>, lg_k: u8, start: &[u32], ops: &[u32]) -> bool {
+    let mut new = false;
     for (k, w) in vs {
-        ctx.violation(&k, &format!("lg_k={lg_k}: {w}"), replay_json(lg_k, start, ops));
+        new |= k.starts_with("panic|");
+        new |= ctx.violation(&k, &format!("lg_k={lg_k}: {w}"), replay_json(lg_k, start, ops));
     }
+    new
 }
